@@ -364,6 +364,44 @@ def check(prop, tier, only=None, verbose=False):
     return EXIT_OK
 
 
+def twin(prop, tier="quick", nparts=4):
+    """vacuity guard: the first partitions of the harness with an obligation
+    `False` appended at the end of the harness function; every one of them
+    must come back violated and the violation must reproduce natively"""
+    from . import loader, envpatch
+    loader.install()
+    loader.POST_LOAD.append(envpatch.patch_module)
+    modname = HARNESS[prop]
+    mod = importlib.import_module(modname)
+    limits = dict(DEFAULT_LIMITS[tier])
+    limits.update(getattr(mod, 'LIMITS', {}).get(tier, {}))
+    limits['max_paths'] = 400
+    parts = mod.partitions(tier)
+    seen, chosen = set(), []
+    for p in parts:                       # one partition per harness function
+        if p['fn'] not in seen and len(chosen) < nparts:
+            seen.add(p['fn'])
+            chosen.append(p)
+    jobs = [dict(module=modname, part=p, tier=tier, seed=0, limits=limits, twin=True)
+            for p in chosen]
+    ctxm = multiprocessing.get_context("fork")
+    ok = True
+    with ctxm.Pool(min(8, len(jobs))) as pool:
+        for r in pool.imap_unordered(runner.run_partition, jobs, chunksize=1):
+            tw = [v for v in r['violations'] if v['label'] == "reachability-twin"]
+            if not tw:
+                print("TWIN NOT VIOLATED: %s %s (%s)" % (prop, r['name'], r['error']))
+                ok = False
+                continue
+            out = runner.native_run(modname, r['fn'], r['params'], [tw[0]['assignment']],
+                                    timeout=120, twin=True)
+            rep = bool(out) and "reachability-twin" in out[0].get('failed', [])
+            print("twin %s %-40s paths=%d violated=%d native=%s" % (
+                prop, r['name'], r['stats']['paths'], len(tw), "reproduced" if rep else "NOT REPRODUCED"))
+            ok = ok and rep
+    return EXIT_OK if ok else EXIT_HARNESS
+
+
 def replay(path):
     with open(path) as f:
         rec = json.load(f)
@@ -392,9 +430,13 @@ def main(argv=None):
     a = ap.parse_args(argv)
     if a.what == "replay":
         return replay(a.arg)
-    if a.what == "selftest":
-        from . import selftest
-        return selftest.main()
+    if a.what == "twin":
+        props = [a.arg] if a.arg else sorted(HARNESS)
+        rc = EXIT_OK
+        for p in props:
+            if os.path.exists(os.path.join(VERIF, HARNESS[p].replace(".", "/") + ".py")):
+                rc = max(rc, twin(p, a.tier))
+        return rc
     if a.what not in HARNESS:
         print("unknown property", a.what)
         return EXIT_HARNESS
